@@ -42,6 +42,9 @@ enum Op {
     Justify { f: u8, premises: Vec<u8> },
     /// `retract(f)`
     Retract { f: u8 },
+    /// `retract(h)` of a handle working memory has not issued yet (the `ahead`-th next one): must
+    /// fail and leave no trace, also not for the fact that later receives that handle
+    RetractUnissued { ahead: u8 },
 }
 
 #[derive(Clone, Debug, PartialEq, Eq, Hash)]
@@ -50,17 +53,30 @@ struct Case {
     /// register one no-op rule per fact type so that every insert/retract/cascade also runs the
     /// engine's incremental re-propagation
     watcher_rule: bool,
+    /// source-rule names given to insert_logical / add_logical_justification: 0 = a different name
+    /// per op, 1 = one name for all, 2 = two names alternating by op index
+    rule_names: u8,
+}
+
+fn rule_name(c: &Case, i: usize) -> String {
+    match c.rule_names {
+        1 => "R".to_string(),
+        2 => format!("R{}", i % 2),
+        _ => format!("rule{}", i),
+    }
 }
 
 impl Case {
     fn to_json(&self) -> Json {
         json!({
             "watcher_rule": self.watcher_rule,
+            "rule_names": self.rule_names,
             "ops": self.ops.iter().map(|o| match o {
                 Op::Explicit { f, plain } => json!({"op": if *plain { "insert" } else { "insert_explicit" }, "fact": f}),
                 Op::Logical { f, premises } => json!({"op": "insert_logical", "fact": f, "premises": premises}),
                 Op::Justify { f, premises } => json!({"op": "add_logical_justification", "fact": f, "premises": premises}),
                 Op::Retract { f } => json!({"op": "retract", "fact": f}),
+                Op::RetractUnissued { ahead } => json!({"op": "retract_unissued_handle", "fact": 0, "ahead": ahead}),
             }).collect::<Vec<_>>(),
         })
     }
@@ -85,10 +101,11 @@ impl Case {
                 "insert_logical" => Op::Logical { f, premises: prem()? },
                 "add_logical_justification" => Op::Justify { f, premises: prem()? },
                 "retract" => Op::Retract { f },
+                "retract_unissued_handle" => Op::RetractUnissued { ahead: o["ahead"].as_u64().unwrap_or(0).min(8) as u8 },
                 _ => return None,
             });
         }
-        Some(Case { ops, watcher_rule: j["watcher_rule"].as_bool().unwrap_or(false) })
+        Some(Case { ops, watcher_rule: j["watcher_rule"].as_bool().unwrap_or(false), rule_names: j["rule_names"].as_u64().unwrap_or(0).min(2) as u8 })
     }
 }
 
@@ -98,6 +115,7 @@ fn op_text(o: &Op) -> String {
         Op::Logical { f, premises } => format!("insert_logical(f{}, premises {:?})", f, premises),
         Op::Justify { f, premises } => format!("add_logical_justification(f{}, premises {:?})", f, premises),
         Op::Retract { f } => format!("retract(f{})", f),
+        Op::RetractUnissued { ahead } => format!("retract(unissued handle, next+{})", ahead),
     }
 }
 
@@ -195,6 +213,9 @@ impl Model {
                 touched.push(*f);
                 self.drop_wf_if_it_disagrees_on(&touched);
                 self.facts[*f as usize].as_mut().unwrap().justs.push(premises.clone());
+            }
+            Op::RetractUnissued { .. } => {
+                // nothing is known under that handle: nothing may change, now or later
             }
             Op::Retract { f } => {
                 if self.facts[*f as usize].is_none() {
@@ -294,6 +315,7 @@ struct Obs {
     max_cascade: u64,
     survived_on_other_justification: u64,
     retract_of_dead_fact: u64,
+    retract_of_unissued_handle: u64,
     retract_live_returned_err: u64,
     histories_where_readings_differ: u64,
     followed_wellfounded_reading: u64,
@@ -384,7 +406,7 @@ fn run_case(c: &Case, mut trace: Option<&mut Vec<String>>) -> (Outcome, Obs) {
             }
             Op::Logical { f, premises } => {
                 let ps = prem(premises);
-                let h = eng.insert_logical(fact_type(*f), fact_data(*f), format!("rule{}", i), ps);
+                let h = eng.insert_logical(fact_type(*f), fact_data(*f), rule_name(c, i), ps);
                 if handles.iter().flatten().any(|x| *x == h) {
                     return (Outcome::Violated(Fail {
                         step: i,
@@ -397,7 +419,22 @@ fn run_case(c: &Case, mut trace: Option<&mut Vec<String>>) -> (Outcome, Obs) {
             }
             Op::Justify { f, premises } => {
                 let ps = prem(premises);
-                eng.tms_mut().add_logical_justification(handles[*f as usize].unwrap(), format!("rule{}", i), ps);
+                eng.tms_mut().add_logical_justification(handles[*f as usize].unwrap(), rule_name(c, i), ps);
+            }
+            Op::RetractUnissued { ahead } => {
+                // handles are issued in sequence; the next ones are max issued + 1, + 2, ...
+                let next = handles.iter().flatten().map(|h| h.id()).max().unwrap_or(0) + 1 + *ahead as u64;
+                let r = eng.retract(FactHandle::new(next));
+                retract_result = Some(r.is_ok());
+                obs.retract_of_unissued_handle += 1;
+                if r.is_ok() {
+                    return (Outcome::Violated(Fail {
+                        step: i,
+                        clause: "retract-unknown-handle".into(),
+                        cause: "returned-ok".into(),
+                        detail: format!("op #{} {}: retract of a handle that was never issued returned Ok", i, op_text(op)),
+                    }), obs);
+                }
             }
             Op::Retract { f } => {
                 obs.retractions += 1;
@@ -688,6 +725,12 @@ fn shrink(c: &Case, clause: &str) -> Case {
                 cur = cc;
             }
         }
+        if cur.rule_names != 0 {
+            let cc = Case { rule_names: 0, ..cur.clone() };
+            if fails_clause(&cc, clause) {
+                cur = cc;
+            }
+        }
         if cur == before {
             break;
         }
@@ -726,6 +769,7 @@ fn flush_tally(st: &mut Stats) {
     st.max("max::facts_removed_by_one_cascade", obs.max_cascade);
     st.add("facts_that_lost_a_justification_and_survived_on_another", obs.survived_on_other_justification);
     st.add("retract_calls_on_already_absent_facts", obs.retract_of_dead_fact);
+    st.add("retract_calls_on_not_yet_issued_handles", obs.retract_of_unissued_handle);
     st.add("retract_of_live_fact_returned_err", obs.retract_live_returned_err);
     st.add("histories_with_cyclic_support_where_the_two_readings_differ", obs.histories_where_readings_differ);
     st.add("histories_where_engine_followed_wellfounded_reading", obs.followed_wellfounded_reading);
@@ -769,6 +813,7 @@ fn check_case(c: &Case, st: &mut Stats) {
         o.max_cascade = o.max_cascade.max(obs.max_cascade);
         o.survived_on_other_justification += obs.survived_on_other_justification;
         o.retract_of_dead_fact += obs.retract_of_dead_fact;
+        o.retract_of_unissued_handle += obs.retract_of_unissued_handle;
         o.retract_live_returned_err += obs.retract_live_returned_err;
         o.histories_where_readings_differ += obs.histories_where_readings_differ;
         o.followed_wellfounded_reading += obs.followed_wellfounded_reading;
@@ -844,6 +889,9 @@ fn alphabet(m: &Model, max_facts: usize) -> Vec<Op> {
     for g in &live {
         v.push(Op::Retract { f: *g });
     }
+    if issued < max_facts {
+        v.push(Op::RetractUnissued { ahead: 0 });
+    }
     v
 }
 
@@ -851,7 +899,11 @@ fn dfs(prefix: &mut Vec<Op>, m: &Model, depth_left: usize, max_facts: usize, st:
     let alpha = alphabet(m, max_facts);
     if depth_left == 0 || alpha.is_empty() {
         // maximal history: run it (every prefix is judged because the monitor compares after every op)
-        check_case(&Case { ops: prefix.clone(), watcher_rule: false }, st);
+        // same history under per-op rule names and under one rule name for every justification
+        check_case(&Case { ops: prefix.clone(), watcher_rule: false, rule_names: 0 }, st);
+        if prefix.iter().any(|o| matches!(o, Op::Justify { .. })) {
+            check_case(&Case { ops: prefix.clone(), watcher_rule: false, rule_names: 1 }, st);
+        }
         st.add("exhaustive_maximal_histories", 1);
         return;
     }
@@ -890,6 +942,7 @@ fn gen_random(rng: &mut Rng, max_ops: usize, max_facts: usize) -> Case {
     let p_retract = 15 + rng.below(30);
     let p_justify = 10 + rng.below(25);
     let chainy = rng.chance(1, 3);
+    let p_unissued = if rng.chance(1, 4) { 12 } else { 0 };
     let mut m = Model::new();
     let mut ops: Vec<Op> = Vec::new();
     let mut tries = 0;
@@ -930,7 +983,9 @@ fn gen_random(rng: &mut Rng, max_ops: usize, max_facts: usize) -> Case {
             }
             ps
         };
-        let op = if roll < p_retract && !issued.is_empty() {
+        let op = if p_unissued > 0 && rng.below(100) < p_unissued {
+            Op::RetractUnissued { ahead: rng.below(3) as u8 }
+        } else if roll < p_retract && !issued.is_empty() {
             if hostile && rng.chance(1, 5) {
                 Op::Retract { f: *rng.pick(&issued) }
             } else if !live.is_empty() {
@@ -964,7 +1019,7 @@ fn gen_random(rng: &mut Rng, max_ops: usize, max_facts: usize) -> Case {
             ops.push(op);
         }
     }
-    Case { ops, watcher_rule: rng.chance(1, 4) }
+    Case { ops, watcher_rule: rng.chance(1, 4), rule_names: rng.below(3) as u8 }
 }
 
 struct C08;
@@ -974,7 +1029,7 @@ impl Check for C08 {
         "C08"
     }
     fn rule(&self) -> String {
-        "exhaustive: every history of exactly N ops (shorter only when no op is possible) over at most F facts, for (N,F) = (7,4) and (6,7) quick / (7,7) and then (8,4) thorough, from the alphabet {insert_explicit(new); insert_logical(new, P); add_logical_justification(g, P) for every live logical g (P may contain g: support cycles); retract(h) for every live h}, P ranging over every non-empty set of <= 3 live facts; the monitor compares after every op, so every shorter history is judged as a prefix. random: histories of 2..=10 ops over 2..=7 facts (thorough: every fourth one 2..=16 ops over up to 10 facts), 1-3 premises, chain-biased and uniform premise choice, 1/6 of them with hostile features (empty or duplicated premise lists, self-support, retract of an already absent fact), 1/4 with a no-op rule registered per fact type so that the engine's re-propagation runs. A case is non-trivial when at least one retraction removed at least one other fact by cascade; distinct by op sequence.".into()
+        "exhaustive: every history of exactly N ops (shorter only when no op is possible) over at most F facts, for (N,F) = (7,4) and (6,7) quick / (7,7) and then (8,4) thorough, from the alphabet {insert_explicit(new); insert_logical(new, P); add_logical_justification(g, P) for every live logical g (P may contain g: support cycles); retract(h) for every live h; retract of the next not-yet-issued handle}; every maximal history with a justification is run twice, with a different source-rule name per op and with ONE rule name for all justifications, P ranging over every non-empty set of <= 3 live facts; the monitor compares after every op, so every shorter history is judged as a prefix. random: histories of 2..=10 ops over 2..=7 facts (thorough: every fourth one 2..=16 ops over up to 10 facts), 1-3 premises, chain-biased and uniform premise choice, 1/6 of them with hostile features (empty or duplicated premise lists, self-support, retract of an already absent fact), 1/4 with failing retract calls on handles that are issued only later, source-rule names per op / one for all / two alternating, 1/4 with a no-op rule registered per fact type so that the engine's re-propagation runs. A case is non-trivial when at least one retraction removed at least one other fact by cascade; distinct by op sequence.".into()
     }
     fn assumptions(&self) -> Vec<String> {
         vec![
